@@ -1282,11 +1282,15 @@ Vdetach(int32 vkey /* IN: vgroup key */)
         }
 
         /* write out vgroup */
-        if (Hputelement(vg->f, DFTAG_VG, vg->oref, Vgbuf, vgpacksize) == FAIL)
+        if (Hputelement(vg->f, DFTAG_VG, vg->oref, Vgbuf, vgpacksize) == FAIL) {
+            /* the edit has not reached the file: report it, and keep it pending */
             HERROR(DFE_WRITEERROR);
-
-        vg->marked = 0;
-        vg->new_vg = 0;
+            ret_value = FAIL;
+        }
+        else {
+            vg->marked = 0;
+            vg->new_vg = 0;
+        }
     }
 
     /* Free the old-style attribute list and reset associated fields */
